@@ -6,7 +6,7 @@ from sessions import ll_login
 from wsx import Wsx, ExecutorDied
 
 KINDS = ["lib_client", "model_correct", "replay_accepted", "replay_rejected", "stale_challenge", "wrong_key_bit",
-         "wrong_username", "proof_bitflip", "client_data_bitflip", "all_zero"]
+         "wrong_username", "proof_bitflip", "client_data_bitflip", "all_zero", "proof_cancelling_change"]
 RULE = ("per authenticated SrpServer a random history of reconnect attempts over the kinds %s; every attempt is judged: "
         "verdict == (proof == H(U | client_data | challenge-on-offer | K)) with the challenge read through the accessor, and "
         "the challenge after the attempt differs from every earlier challenge of that object. Distinct non-trivial cases = "
@@ -87,6 +87,21 @@ def run_history(w, sc, mon, pair_seen):
         elif kind == "client_data_bitflip":
             proof = M.reconnect_proof(un, data, cur, K)
             data = flipbit(data, rnd.randrange(128))
+        elif kind == "proof_cancelling_change":
+            # changes in two or more bytes whose differences cancel under XOR / sum (defeats folded comparisons)
+            good = M.reconnect_proof(un, data, cur, K)
+            mode = rnd.randrange(3)
+            if mode == 0:
+                proof = good[::-1]
+            elif mode == 1:
+                proof = good[1:] + good[:1]
+            else:
+                i, j = rnd.sample(range(20), 2)
+                bit = 1 << rnd.randrange(8)
+                x = bytearray(good)
+                x[i] ^= bit
+                x[j] ^= bit
+                proof = bytes(x)
         else:
             data, proof = bytes(16), bytes(20)
         r = w.call("srv_reconnect", h=5, data=data, proof=proof)
@@ -139,6 +154,8 @@ def worker(idx, nworkers, tier, seed, extra):
                 sc["plan"] = ["lib_client"] * 100
             elif i % 50 == 8:
                 sc["plan"] = ["model_correct", "replay_accepted"] * 20
+            elif i % 50 == 9:
+                sc["plan"] = ["proof_bitflip"] * 300 + ["lib_client", "all_zero"] * 3
             run_history(w, sc, mon, pair_seen)
     except ExecutorDied as e:
         mon.violation("c05:executor_died", "executor died rc=%s" % e.rc, {"engine": "wsx", "kind": "raw", "commands": e.last_cmds})
